@@ -136,6 +136,9 @@ func TestReplay(t *testing.T) {
 }
 
 func replayOne(t *testing.T, rf *vstat.ReplayFile) string {
+	if rf.Part == "overlap" {
+		return replayOverlap(t, rf.Scenario)
+	}
 	var sc Scenario
 	if err := json.Unmarshal(rf.Scenario, &sc); err != nil {
 		return "bad scenario: " + err.Error()
